@@ -1,8 +1,23 @@
 (* C05 correspondence (harness/c05.go): op 1 = one request of class [cls] by an account with bitmap [b]:
    obs [denied?; state changed although denied?]; op 2 = display name: obs [error?; resulting name] *)
-From Verif Require Import Base.Bytes Corr.Case Auth.Access Auth.GuardSpec Wire.Parse Wire.Types Wire.Impl.
+From Verif Require Import Base.Bytes Corr.Case Auth.Access Auth.Batch Auth.GuardSpec Wire.Parse Wire.Types Wire.Impl.
 Local Open Scope N_scope.
 Definition a (n : nat) (l : list (list N)) : list N := nth n l [].
+
+(* op 4 = one UpdateUser transaction carrying a batch of edits on the logins 0 and 1: args bitmap, which of the two
+   logins exist, edits as triples (0 delete / 1 upsert, login, tag);
+   obs [0 replied / 1 refused / 2 no reply; for each login 0 = absent, 1 + tag of the edit that last wrote it] *)
+Fixpoint dec_edits (b : list N) : list edit :=
+  match b with
+  | k :: l :: tag :: r => (if k =? 0 then EDelete l else EUpsert l tag) :: dec_edits r
+  | _ => []
+  end.
+Definition init_table (f : list N) : table :=
+  (if nth 0 f 0 =? 1 then [(0, 0)] else []) ++ (if nth 1 f 0 =? 1 then [(1, 0)] else []).
+Definition render_login (t : table) (l : N) : N := match lookup t l with None => 0 | Some tag => 1 + tag end.
+Definition batch_model (b f es : list N) : list (list N) :=
+  let '(t, o) := run_batch b (init_table f) (dec_edits es) in
+  [[outcome_code o]; [render_login t 0; render_login t 1]].
 
 Definition model1 (o : dop) : list (list N) :=
   let '(code, args) := o in
@@ -18,6 +33,7 @@ Definition model1 (o : dop) : list (list N) :=
     | Err => [[0]; [0]]
     | Panic => [[3]; [0]]
     end
+  else if code =? 4 then batch_model (a 0 args) (a 1 args) (a 2 args)
   else [].
 Definition model (ops : list dop) : list (list (list N)) := map model1 ops.
 (* the model IS the reference decision table; the oracle is the same judgement - except for path probes, which are
